@@ -46,6 +46,7 @@ mutual
       simp [typeOf, hasTy_typeOf v r h.2, h.1]
     | .list _ _, t, h => by cases t <;> simp [checkVal] at h; simp [typeOf, h.1]
     | .map _ _ _, t, h => by cases t <;> simp [checkVal] at h; simp [typeOf, h.1.1, h.1.2]
+    | .set _ _, t, h => by cases t <;> simp [checkVal] at h; simp [typeOf, h.1]
     | .lam _ _ _, t, h => by cases t <;> simp [checkVal] at h; simp [typeOf, h.1.1, h.1.2]
 end
 
@@ -129,6 +130,11 @@ theorem hasTy_map {v : Val} {k w : Ty} (h : HasTy v (.map k w)) : ∃ xs, v = .m
   val_shapes
   simp [HasTy, checkVal] at h
   exact ⟨_, by rw [h.1.1, h.1.2], h.2⟩
+
+theorem hasTy_set {v : Val} {t : Ty} (h : HasTy v (.set t)) : ∃ xs, v = .set t xs ∧ AllTy xs t := by
+  val_shapes
+  simp [HasTy, checkVal] at h
+  exact ⟨_, by rw [h.1], h.2⟩
 
 theorem hasTy_bool {v : Val} (h : HasTy v .bool) : ∃ b, v = .bool b := by
   val_shapes
@@ -223,6 +229,7 @@ theorem wf_mutez (v : Int) : WF (.num .mutez v) ↔ 0 ≤ v ∧ v < 2 ^ 63 := by
 theorem wf_list (t : Ty) (xs : List Val) : WF (.list t xs) ↔ AllTy xs t := by simp [WF, HasTy, AllTy, checkVal, typeOf]
 theorem wf_map (k v : Ty) (xs : List Val) : WF (.map k v xs) ↔ AllTy xs (.pair k v) := by
   simp [WF, HasTy, AllTy, checkVal, typeOf]
+theorem wf_set (t : Ty) (xs : List Val) : WF (.set t xs) ↔ AllTy xs t := by simp [WF, HasTy, AllTy, checkVal, typeOf]
 theorem wf_lam (a b : Ty) (body : Instr) : WF (.lam a b body) ↔ BodyTy body a b := by
   constructor
   · intro h
